@@ -16,10 +16,15 @@ TReadRet == Is("ReadRet") /\ l' = l + 1 /\ ReadRet(Trace[l].d, Trace[l].off, Tra
 TQuiesce == Is("Quiesce") /\ l' = l + 1 /\ Quiesce(Trace[l].d, Trace[l].delivered, Trace[l].wdone)
 TClose == Is("Close") /\ l' = l + 1 /\ Close
 \* after the harness closed the connections the readers end with whatever error: not part of the property
-TReadEnd == Is("ReadEnd") /\ l' = l + 1 /\ closed /\ UNCHANGED bsvars
+\* (or the peer closed after writing: then the reader must have received everything first)
+\* (the reader that belongs to the side which closed ends too, with whatever error: its own connection is gone)
+TReadEnd == /\ Is("ReadEnd") /\ l' = l + 1
+            /\ (closed \/ GracefulEnd(Trace[l].d) \/ hs[IF Trace[l].d = "c2s" THEN "s" ELSE "c"] = "hclosed")
+            /\ UNCHANGED bsvars
+THalfClose == Is("HalfClose") /\ l' = l + 1 /\ HalfClose(Trace[l].d)
 \* informational events of the drivers (wire format observations are checked by the transport's own trace spec)
 TInfo == Is("Info") /\ l' = l + 1 /\ UNCHANGED bsvars
-TNext == TReset \/ THs \/ TWriteCall \/ TWriteRet \/ TReadRet \/ TQuiesce \/ TClose \/ TReadEnd \/ TInfo
+TNext == THalfClose \/ TReset \/ THs \/ TWriteCall \/ TWriteRet \/ TReadRet \/ TQuiesce \/ TClose \/ TReadEnd \/ TInfo
 TraceSpec == TInit /\ [][TNext]_tvars
 HW == TLCSet(1, IF l - 1 > TLCGet(1) THEN l - 1 ELSE TLCGet(1))
 TraceAccepted == IF TLCGet(1) = Len(Trace) THEN TRUE ELSE PrintT(<<"REJECTED_AFTER", TLCGet(1)>>) /\ FALSE
